@@ -671,3 +671,68 @@ def construct_harness(ctx, cfg):
             ok = False
     ctx.oblige("C06.lookups_after_construction", ok, "C06")
     ctx.witness("division", Or([sh1.outdeg[i] == 2 for i in range(N)]))
+
+
+# ------------------------------------------------------------------ SolutionTracks.from_tracks
+def from_tracks_harness(ctx, cfg):
+    """SolutionTracks.from_tracks on a Tracks object whose nodes carry ids on ALL nodes (trusted, consistent)
+    or lack them on some node (recomputed): the result must be a solution whose ids are maintained -
+    one user action afterwards must still give the exact partitions."""
+    from funtracks.data_model import Tracks
+
+    N = cfg["N"]
+    ids = list(range(1, N + 1))
+    g = SymDiGraph(ids, tag="g", sym_order=False)
+    for s in range(N):
+        g.E[s][s] = False
+    tm = [z3.Int(f"t{i}") for i in ids]
+    tid = [z3.Int(f"tid{i}") for i in ids]
+    lid = [z3.Int(f"lid{i}") for i in ids]
+    sh = I.Shape(g)
+    missing = ctx.choose(N + 1, "node_without_ids")  # N = every node carries ids
+    pre = list(I.forest(sh).values()) + [I.forward(sh, tm)]
+    if missing == N:
+        # ids are trusted: any consistent labelling with ids from a small range (they become dict keys)
+        pre += [And(1 <= tid[i], tid[i] <= N, 1 <= lid[i], lid[i] <= N) for i in range(N)]
+    else:
+        # ids are recomputed from scratch: the stale values on the other nodes are irrelevant, keep them concrete
+        pre += [And(tid[i] == 1, lid[i] == 1) for i in range(N)]
+    if missing == N:
+        pre += [I.partition_local(sh, tid, lambda a, b: sh.outdeg[a] == 1), I.partition_local(sh, lid, lambda a, b: True)]
+    else:
+        pre.append(sh.al[missing])
+    ctx.assume(And(pre))
+    for s in range(N):
+        g.nattr[s] = {T: SInt(tm[s]), POS: Tok(f"pos{s}")}
+        if s != missing:
+            g.nattr[s][TID] = SInt(tid[s])
+            g.nattr[s][LID] = SInt(lid[s])
+    ctx.input("N", N)
+    ctx.input("alive", list(sh.al))
+    ctx.input("adj", [list(r) for r in sh.A])
+    ctx.input("t", tm)
+    ctx.input("tid", tid)
+    ctx.input("lid", lid)
+    ctx.input("missing", None if missing == N else ids[missing])
+    ctx.input("action", "from_tracks")
+    base = Tracks(g, ndim=3, time_attr=T, tracklet_attr=TID, lineage_attr=LID)
+    st = SolutionTracks.from_tracks(base)
+    ctx.tag("recomputed" if missing != N else "ids_trusted")
+    sh1 = I.Shape(g)
+    ctx.oblige("C04.partition_after_from_tracks",
+               And(I.has_all(sh1, I.attr_terms(g, TID)), I.partition_exact(sh1, I.attr_terms(g, TID), sh1.seg())), "C04")
+    ctx.oblige("C05.partition_after_from_tracks",
+               And(I.has_all(sh1, I.attr_terms(g, LID)), I.partition_exact(sh1, I.attr_terms(g, LID), sh1.comp())), "C05")
+    # one edit afterwards: delete an existing edge
+    u = ids[ctx.choose(N, "u")]
+    v = ids[ctx.choose(N, "v")]
+    ctx.input("args", dict(u=u, v=v))
+    if not ctx.decide(sh1.A[u - 1][v - 1]):
+        return
+    UserDeleteEdge(st, (u, v))
+    ctx.tag("edited")
+    sh2 = I.Shape(g)
+    ctx.oblige("C04.partition_after_from_tracks_and_edit",
+               And(I.has_all(sh2, I.attr_terms(g, TID)), I.partition_exact(sh2, I.attr_terms(g, TID), sh2.seg())), "C04")
+    ctx.oblige("C05.partition_after_from_tracks_and_edit",
+               And(I.has_all(sh2, I.attr_terms(g, LID)), I.partition_exact(sh2, I.attr_terms(g, LID), sh2.comp())), "C05")
